@@ -52,6 +52,9 @@ CONSTANTS
   Weak_AbsenceRawKey,          \* (v0.34.24) ABCIQuery: absence proofs verified with string(resp.Key) instead of the key path
   Weak_NoParamsHashCompare,    \* ConsensusParams: no comparison with ConsensusHash
   Weak_ValsNotHashed,          \* light block: validator set not hashed against ValidatorsHash
+  Weak_BackwardsTargetNotRechecked, \* light/client.go backwards(): after a lying primary was replaced in the middle of a backwards
+                               \*   verification, the new primary's block for the TARGET height is not compared with the header the
+                               \*   caller fetched first (and is about to store)
   Weak_SearchProofFromCachedBlock  \* rpc/core TxSearch: the block is re-loaded only when the result's height is ABOVE the
                                \*   cached block's ("don't load the same block for every tx"): wrong for descending pages
 
@@ -236,9 +239,13 @@ ProviderKinds == {"Commit", "Validators"}
 
 \* uniform argument record: h (height), i (0-based tx index), store, key, lo, hi, page, per, lc, ord
 \*   lc = "fresh": the light client holds only the trusted height 1;  "warm": it holds every height
+\*        "top": it holds only the trusted height tip -- lower heights are verified BACKWARDS
 \*   ord = order_by of a TxSearch ("" elsewhere)
+\*   pp  = persona of the light client's primary AFTER its first answer for height h: "" honest,
+\*         "break": it serves an interim header that does not chain to the trusted one (backwards
+\*         verification fails, the primary is replaced by an honest witness)
 Arg(h, i, store, key, lo, hi, page, per, lc) ==
-  [h |-> h, i |-> i, store |-> store, key |-> key, lo |-> lo, hi |-> hi, page |-> page, per |-> per, lc |-> lc, ord |-> ""]
+  [h |-> h, i |-> i, store |-> store, key |-> key, lo |-> lo, hi |-> hi, page |-> page, per |-> per, lc |-> lc, ord |-> "", pp |-> ""]
 
 HonestBlock(C, h) == LET b == C.blocks[h] IN
   [block_id |-> b.bid, block |-> [header |-> b.header, txs |-> b.txs, evidence |-> b.evidence, last_commit |-> b.last_commit]]
@@ -295,7 +302,7 @@ ValidArg(C, k, a) ==
 \* honest requests whose proving header exists on the (static) chain
 HonestArgs(C, k) ==
   LET H == 1..C.tip
-      lcs == {"fresh", "warm"}
+      lcs == {"fresh", "warm", "top"}
   IN CASE k \in {"Block", "BlockByHash", "ConsensusParams", "Commit"} -> {Arg(h, 0, "", "", 0, 0, 0, 0, lc) : h \in H, lc \in lcs}
        [] k = "Tx" -> UNION {{Arg(h, i - 1, "", "", 0, 0, 0, 0, lc) : i \in 1..Len(C.blocks[h].txs), lc \in lcs} : h \in H}
        [] k = "BlockResults" -> {Arg(h, 0, "", "", 0, 0, 0, 0, lc) : h \in 1..(C.tip - 1), lc \in lcs}
@@ -540,12 +547,34 @@ LCVerify(C, have, h, lb) ==
   ELSE "ok"
 \* what updateLightClientIfNeededTo(h) yields: the stored block when h is already trusted,
 \* else the verified block of the primary.  sent = the light block the primary serves.
-LCGet(C, have, h, sent) ==
+\* The provider in front of the (possibly lying) node validates what it hands to the light client the
+\* way light/provider/http does: right height, LightBlock.ValidateBasic.  A bad block is answered
+\* with ErrBadLightBlock; light/client.go lightBlockFromPrimary then REPLACES the primary by a
+\* witness (honest here, two witnesses so that one remains) and goes on with the witness' block.
+ProviderRejects(C, h, lb) == ~LightBlockBasic(C, lb) \/ lb.header.height # h
+MinOf(S) == CHOOSE t \in S : \A u \in S : t <= u
+\* light/client.go backwards(): h below the first trusted height.  Only the HEADER is tied to the
+\* trusted header, by the hash chain of interim headers fetched from the primary; the final check
+\* requires the chain to end in the header fetched first.  pp = "break": the first interim header
+\* does not chain -> VerifyBackwards fails -> findNewPrimary(h) -> the witness' (honest) block must
+\* have the hash of the header fetched first, else the original error is returned.
+LCBackwards(C, h, lb, pp) ==
+  LET match == HeaderHash(C, lb.header) = C.blocks[h].bid.hash IN
+  IF pp = "break" /\ Weak_BackwardsTargetNotRechecked THEN "ok"      \* the forged block is stored
+  ELSE IF match THEN "ok" ELSE "lc:backwards"
+LCGet(C, have, h, sent, pp) ==
   IF h \in have /\ h \in 1..C.tip THEN [st |-> "ok", lb |-> HonestLightBlock(C, h)]
-  ELSE LET st == LCVerify(C, have, h, sent) IN [st |-> st, lb |-> sent]
+  ELSE IF h < 1 \/ h > C.tip THEN [st |-> "lc:height", lb |-> sent]
+  ELSE LET replaced == ProviderRejects(C, h, sent)
+           lb == IF replaced THEN HonestLightBlock(C, h) ELSE sent
+           st == IF h < MinOf(have) THEN LCBackwards(C, h, lb, IF replaced THEN "" ELSE pp)
+                 ELSE LCVerify(C, have, h, lb)
+       IN [st |-> st, lb |-> lb]
 \* for backend kinds the primary is honest
-LCHonest(C, have, h) == IF h \in 1..C.tip THEN LCGet(C, have, h, HonestLightBlock(C, h)) ELSE [st |-> "lc:height", lb |-> Nil]
-Have(C, a) == IF a.lc = "warm" THEN 1..C.tip ELSE {1}
+LCHonest(C, have, h) == IF h \in 1..C.tip THEN LCGet(C, have, h, HonestLightBlock(C, h), "") ELSE [st |-> "lc:height", lb |-> Nil]
+Have(C, a) == IF a.lc = "warm" THEN 1..C.tip ELSE IF a.lc = "top" THEN {C.tip} ELSE {1}
+\* the block for a.h was (or would be) obtained by backwards verification
+Backwards(C, a) == a.h >= 1 /\ a.h < MinOf(Have(C, a))
 \* what actually reaches the client: the primary is not even asked for a height already trusted
 EffSent(C, k, a, f) == IF k \in ProviderKinds /\ a.h \in Have(C, a) THEN Honest(C, k, a) ELSE Falsify(C, k, a, f)
 
@@ -642,7 +671,7 @@ RelayInfo(C, a, r) ==      \* Client.BlockchainInfo
        ELSE CheckMetas(C, Have(C, a) \cup {low}, r.metas, 1)
 
 \* Client.Commit / Client.Validators: answered from the light block itself
-RelayLight(C, a, sent) == LET l == LCGet(C, Have(C, a), a.h, sent) IN
+RelayLight(C, a, sent) == LET l == LCGet(C, Have(C, a), a.h, sent, a.pp) IN
   IF l.st = "ok" THEN OK ELSE IF l.st = "lc:panic" THEN Rej("panic") ELSE Rej("lc")
 \* what the client hands to the caller for the provider kinds
 ShapeCommit(lb) == [header |-> lb.header, commit |-> lb.commit, canonical |-> TRUE]
@@ -661,12 +690,12 @@ Relay(C, k, a, r) ==
     [] k = "ConsensusParams" -> RelayParams(C, a, r)
     [] k = "BlockchainInfo"  -> RelayInfo(C, a, r)
     [] k = "Commit"          -> RelayLight(C, a, r)
-    [] k = "Validators"      -> LET x == RelayLight(C, a, r) IN
-                                IF x.ok /\ ~PageOK(a, Len(r.vals)) THEN Rej("basic") ELSE x
+    [] k = "Validators"      -> LET x == RelayLight(C, a, r) IN      \* paging over the validator set actually held
+                                IF x.ok /\ ~PageOK(a, Len(LCGet(C, Have(C, a), a.h, r, a.pp).lb.vals)) THEN Rej("basic") ELSE x
 \* the value handed to the caller when relayed
 Returned(C, k, a, r) ==
-  CASE k = "Commit"     -> ShapeCommit(LCGet(C, Have(C, a), a.h, r).lb)
-    [] k = "Validators" -> ShapeValidators(a, LCGet(C, Have(C, a), a.h, r).lb)
+  CASE k = "Commit"     -> ShapeCommit(LCGet(C, Have(C, a), a.h, r, a.pp).lb)
+    [] k = "Validators" -> ShapeValidators(a, LCGet(C, Have(C, a), a.h, r, a.pp).lb)
     [] OTHER            -> r
 
 \* ------------------------------------------------------------------ (3e) Consistent: the statement, per kind
@@ -712,17 +741,25 @@ ConsInfo(C, T, g) == \A i \in 1..Len(g.metas) : LET h == g.metas[i].header.heigh
   /\ g.metas[i].block_id = C.blocks[h].commit.bid
 \* a commit is consistent when it is a commit FOR the verified header carrying > 2/3 of valid
 \* signatures (signatures beyond the quorum are not examined by VerifyCommitLight: S18)
-ConsCommit(C, T, g) ==
+ConsCommitHdr(C, T, g) ==
   LET h == g.header.height IN
   /\ OnChain(C, T, h)
   /\ g.header = C.blocks[h].header
   /\ g.commit.height = h
+  /\ g.commit.bid.hash = C.blocks[h].bid.hash
+ConsCommitFull(C, T, g) ==
+  LET h == g.header.height IN
+  /\ ConsCommitHdr(C, T, g)
   /\ g.commit.bid = C.blocks[h].bid
   /\ g.commit.round = C.blocks[h].commit.round
   /\ Len(g.commit.sigs) = Len(C.blocks[h].vals)
   /\ 3 * SumSeq([i \in 1..Len(g.commit.sigs) |->
                    IF SameSig(g.commit.sigs[i], HonestSig(C, h, i)) /\ g.commit.sigs[i].flag = 2 THEN C.blocks[h].vals[i].power ELSE 0])
        > 2 * TotalPower(C.blocks[h].vals)
+\* A commit obtained by BACKWARDS verification is stored without its signatures ever being
+\* verified (light/client.go verifyLightBlock: backwards() links the header only): known finding
+\* C20-backwards-commit-unverified; ConsistentStrict demands the full commit there too.
+ConsCommit(C, T, a, g) == ConsCommitHdr(C, T, g) /\ (Backwards(C, a) \/ ConsCommitFull(C, T, g))
 ConsVals(C, T, a, g) ==
   LET h == g.height IN
   /\ OnChain(C, T, h)
@@ -743,12 +780,13 @@ Consistent(C, T, k, a, g) ==
     [] k = "BlockResults"    -> ConsResults(C, T, g)
     [] k = "ConsensusParams" -> ConsParams(C, T, g)
     [] k = "BlockchainInfo"  -> ConsInfo(C, T, g)
-    [] k = "Commit"          -> ConsCommit(C, T, g)
+    [] k = "Commit"          -> ConsCommit(C, T, a, g)
     [] k = "Validators"      -> ConsVals(C, T, a, g)
 ConsistentStrict(C, T, k, a, g) ==
   /\ Consistent(C, T, k, a, g)
   /\ k = "Tx" => ConsTxResult(C, T, g)
   /\ k = "Validators" => ConsValAddr(g)
+  /\ k = "Commit" => ConsCommitFull(C, T, g)
 
 \* Fields no header commits to (S19 and friends): falsifying them cannot be detected by ANY
 \* client; relaying such a lie is a stated limit, not a violation.  (Consistent above does
@@ -803,6 +841,8 @@ UncommittedOnlyCase(C, cs) ==
            \/ (cs.kind = "Tx" /\ cs.f.edits[1].path = <<"proof", "proof", "total">>)     \* shape alias (C10 known finding)
            \/ (cs.kind = "Tx" /\ Under(cs.f.edits[1].path, <<"result">>))                 \* known finding C20-tx-result-unproven
            \/ (cs.kind = "Validators" /\ LastOf(cs.f.edits[1].path) = "addr")             \* known finding C20-validator-address-unbound
+           \/ (cs.kind = "Commit" /\ Backwards(C, cs.a) /\ Under(cs.f.edits[1].path, <<"commit">>))
+           \/ Returned(C, cs.kind, cs.a, sent) = Returned(C, cs.kind, cs.a, Honest(C, cs.kind, cs.a))
            \/ \E a2 \in HonestArgs(C, cs.kind) : sent = Honest(C, cs.kind, a2)              \* a different but genuine answer
 
 \* all four, sharing the evaluation of Falsify / Relay (what the exhaustive config checks)
@@ -820,6 +860,8 @@ CaseOK(C, cs) ==
               \/ (k = "Tx" /\ cs.f.edits[1].path = <<"proof", "proof", "total">>)
               \/ (k = "Tx" /\ Under(cs.f.edits[1].path, <<"result">>))
               \/ (k = "Validators" /\ LastOf(cs.f.edits[1].path) = "addr")
+              \/ (k = "Commit" /\ Backwards(C, cs.a) /\ Under(cs.f.edits[1].path, <<"commit">>))   \* known finding (backwards)
+              \/ ret = Returned(C, k, cs.a, hon)                          \* the lie was discarded (primary replaced)
               \/ \E a2 \in HonestArgs(C, k) : sent = Honest(C, k, a2)
 
 \* ServedProofsVerify: the inclusion proof rpc/core serves for tx i of block h verifies
